@@ -159,6 +159,30 @@ def resBuf {α} (r : Res α) (okStr : α → String) (buf : Bytes) (ev : List Ev
   | .err e => s!"err {e.toStr} buf={hex (strip buf)} ev={fmtEvents ev}"
   | .panic _ => "panic"
 
+/-- What a wrapper may leave in the caller's buffer when authentication fails without revealing
+    anything: the C19 theorems hold for EVERY `decFailBuf` (it is a function of the ciphertext and
+    the capacity only, the key does not occur). The instance of the backend in use comes first in
+    the printed list; the others are the remaining plaintext-free shapes (copy of the ciphertext
+    body; body zeroed, with or without the tag behind it; nothing written), accepted by the
+    correspondence so that a harmless change of that behaviour does not break the tie. -/
+def failVariants : List (Bytes → Nat → Bytes) :=
+  [ fun ct _ => ct.take (ct.length - 16),
+    fun ct cap => if cap ≥ ct.length then Bytes.zeros (ct.length - 16) ++ ct.drop (ct.length - 16) else [],
+    fun ct cap => if cap ≥ ct.length then Bytes.zeros (ct.length - 16) ++ ct.drop (ct.length - 16) else Bytes.zeros (ct.length - 16),
+    fun ct _ => Bytes.zeros (ct.length - 16),
+    fun _ _ => [] ]
+
+def altBufs (actual : Bytes) (alts : List Bytes) : String :=
+  let a := hex (strip actual)
+  let others := ((alts.map fun b => hex (strip b)).filter (· != a)).eraseDups
+  "|".intercalate (a :: others)
+
+/-- `resBuf` for reads: on an error the buffer field lists the acceptable alternatives. -/
+def resBufR {α} (r : Res α) (okStr : α → String) (buf : Bytes) (ev : List Event) (alts : Unit → List Bytes) : String :=
+  match r with
+  | .err e => s!"err {e.toStr} buf={altBufs buf (alts ())} ev={fmtEvents ev}"
+  | _ => resBuf r okStr buf ev
+
 def isUtf8 (b : Bytes) : Bool := (String.fromUTF8? (ByteArray.mk b.toArray)).isSome
 
 def primLine (parts : List String) : String :=
@@ -195,7 +219,7 @@ def primLine (parts : List String) : String :=
            let cap := (arg 8).toNat!
            match c.dec key (arg 5).toNat!.toUInt64 (unhex (arg 6)) ct with
            | some p => s!"ok {hex p} buf={hex (strip (Real.okBuf b ct p cap))}"
-           | none => s!"err Decrypt buf={hex (strip (Real.failBuf b ct cap))}"
+           | none => s!"err Decrypt buf={altBufs (Real.failBuf b ct cap) (failVariants.map fun v => v ct cap)}"
          else
            let S := Real.mkSuite (Real.dhImpl .toy 0) b c (Real.hashImpl .toy 0)
            s!"ok {hex (c.enc (rekeyKey S key) 0 [] (zeros 16))}")
@@ -390,7 +414,8 @@ def step (st : St) (line : String) : St × String :=
     (match st.get (nat 1) with
      | some (.hs S hs) =>
        let (r, hs', buf, ev) := hs.readMessage S (unhex (arg 2)) (nat 3)
-       (st.put (nat 1) (.hs S hs'), resBuf r hex buf ev)
+       (st.put (nat 1) (.hs S hs'), resBufR r hex buf ev
+          (fun _ => failVariants.map fun v => (hs.readMessage { S with decFailBuf := v } (unhex (arg 2)) (nat 3)).2.2.1))
      | _ => (st, "nosession"))
   | "set_psk" =>
     (match st.get (nat 1) with
@@ -431,7 +456,8 @@ def step (st : St) (line : String) : St × String :=
     (match st.get (nat 1) with
      | some (.ts S ts) =>
        let (r, ts', buf, ev) := ts.readMessage S (unhex (arg 2)) (nat 3)
-       (st.put (nat 1) (.ts S ts'), resBuf r hex buf ev)
+       (st.put (nat 1) (.ts S ts'), resBufR r hex buf ev
+          (fun _ => failVariants.map fun v => (ts.readMessage { S with decFailBuf := v } (unhex (arg 2)) (nat 3)).2.2.1))
      | _ => (st, "nosession"))
   | "st_write" =>
     (match st.get (nat 1) with
@@ -444,7 +470,8 @@ def step (st : St) (line : String) : St × String :=
     (match st.get (nat 1) with
      | some (.sts S ts) =>
        let (r, buf, ev) := ts.stRead S (nat 2).toUInt64 (unhex (arg 3)) (nat 4)
-       (st, resBuf r hex buf ev)
+       (st, resBufR r hex buf ev
+          (fun _ => failVariants.map fun v => (ts.stRead { S with decFailBuf := v } (nat 2).toUInt64 (unhex (arg 3)) (nat 4)).2.1))
      | _ => (st, "nosession"))
   | "rekey" =>
     let f (S : Suite) (ts : TS) : Option (TS × List Event) :=
